@@ -31,6 +31,11 @@ Sec == <<"G">>             \* stands for the word "refgroup"
 V_include == <<"I">>
 V_exclude == <<"E">>
 V_name    == <<"N">>
+V_includere == <<"J">>     \* includeregexp
+V_excludere == <<"F">>     \* excluderegexp
+RuleVars == {V_include, V_exclude, V_includere, V_excludere}
+PolOf(var) == IF var \in {V_include, V_includere} THEN "include" ELSE "exclude"
+IsRx(var) == var \in {V_includere, V_excludere}
 
 IndexesOf(s, c) == {i \in 1..Len(s) : s[i] = c}
 LastIdx(s, c) == LET P == IndexesOf(s, c) IN IF P = {} THEN 0 ELSE CHOOSE i \in P : \A j \in P : j <= i
@@ -79,9 +84,12 @@ AugmentC(recs, sym) ==
   LET prefix == Sec \o <<Dot>> \o sym \o (IF TrailingDotFix THEN <<Dot>> ELSE <<>>)
       es == GetConfigC(recs, prefix)
       RECURSIVE Rules(_), Name(_, _)
+      \* the switch of augmentFromConfig: one case per variable, anything else is ignored
       Rules(i) == IF i > Len(es) THEN <<>>
-                  ELSE IF es[i].key = V_include THEN <<[pol |-> "include", value |-> es[i].value]>> \o Rules(i + 1)
-                  ELSE IF es[i].key = V_exclude THEN <<[pol |-> "exclude", value |-> es[i].value]>> \o Rules(i + 1)
+                  ELSE IF es[i].key = V_include THEN <<[pol |-> "include", rx |-> FALSE, value |-> es[i].value]>> \o Rules(i + 1)
+                  ELSE IF es[i].key = V_includere THEN <<[pol |-> "include", rx |-> TRUE, value |-> es[i].value]>> \o Rules(i + 1)
+                  ELSE IF es[i].key = V_exclude THEN <<[pol |-> "exclude", rx |-> FALSE, value |-> es[i].value]>> \o Rules(i + 1)
+                  ELSE IF es[i].key = V_excludere THEN <<[pol |-> "exclude", rx |-> TRUE, value |-> es[i].value]>> \o Rules(i + 1)
                   ELSE Rules(i + 1)
       Name(i, acc) == IF i > Len(es) THEN acc
                       ELSE Name(i + 1, IF es[i].key = V_name THEN es[i].value ELSE acc)
@@ -132,8 +140,8 @@ OrderD(recs) ==
 RulesD(recs, sym) ==
   LET RECURSIVE Go(_)
       Go(i) == IF i > Len(recs) THEN <<>>
-               ELSE IF IsGroupRec(recs[i]) /\ recs[i].sub = sym /\ recs[i].var \in {V_include, V_exclude}
-                    THEN <<[pol |-> IF recs[i].var = V_include THEN "include" ELSE "exclude", value |-> recs[i].value]>> \o Go(i + 1)
+               ELSE IF IsGroupRec(recs[i]) /\ recs[i].sub = sym /\ recs[i].var \in RuleVars
+                    THEN <<[pol |-> PolOf(recs[i].var), rx |-> IsRx(recs[i].var), value |-> recs[i].value]>> \o Go(i + 1)
                     ELSE Go(i + 1)
   IN Go(1)
 
@@ -186,9 +194,12 @@ OutcomeD(recs) ==
 (***************************************************************************)
 (* Classification of a reference against the tree (C07).  A probe is what  *)
 (* the rules see of a reference name: [v : the rule value it lies below    *)
-(* (0: none), b : the built-in group it belongs to (<<>>: none)].          *)
+(* (0: none), b : the built-in group it belongs to (<<>>: none), num : its *)
+(* last component is a number (what the regexp rules ask for)].            *)
 (***************************************************************************)
-RuleMatches(rule, p) == rule.value = p.v
+\* a prefix rule with value v matches the references below v; a regexp rule with value v is the expression
+\* "v/[0-9]+" (whole name): it matches the probes below v whose last component is a number, p.num
+RuleMatches(rule, p) == rule.value = p.v /\ (rule.rx => p.num)
 
 \* own filter of a group: "nil" | "yes" | "no" (Include.Combine / Exclude.Combine from the built-in base)
 OwnOf(rules, g, p) ==
